@@ -45,7 +45,8 @@ def seeded_table():
         if not os.path.exists(mp):
             continue
         m = json.load(open(mp))
-        det = "; ".join("%s: %s" % (k, v["verdict"]) for k, v in sorted(m.get("detection", {}).items()))
+        det = "; ".join("%s: %s%s" % (k, v["verdict"], (" (replay reproduces on the patched tree, passes on the unchanged tree)" if v.get("replay_ok") else (" (REPLAY MISMATCH %s/%s)" % (v.get("replay_on_patched_tree_exit"), v.get("replay_on_unchanged_tree_exit")) if "replay_ok" in v else "")))
+                        for k, v in sorted(m.get("detection", {}).items()))
         out.append("| `%s` | %s | %s | %s | %s | %s |" % (
             name, m.get("property"), m.get("breaks"), m.get("needs_to_manifest"),
             "yes" if m.get("verification", {}).get("confirmed") else "NO", det))
